@@ -162,7 +162,13 @@ impl Sim {
                         .unwrap_or((false, false));
                     let cookie = self.lt_sess.as_ref().map(|s| s.nonce.starts_with("obMatJos2")).unwrap_or(false);
                     attrs.push(RAttr::Nonce(format!("{}-stale{}", nonce_text(*nonce, cookie, a, u), nonce)));
-                    if a {
+                    if r.twist & 16 != 0 {
+                        // a different list than the session's (the offer that counts is the one of the 401)
+                        let cur = self.lt_sess.as_ref().and_then(|s| s.algs.clone());
+                        let other = [vec![RAlg { id: 1, params: vec![] }], vec![RAlg { id: 2, params: vec![] }, RAlg { id: 1, params: vec![] }]];
+                        let pick = if cur.as_ref() == Some(&other[0]) { other[1].clone() } else { other[0].clone() };
+                        attrs.push(RAttr::PasswordAlgorithms(pick));
+                    } else if a {
                         // a conforming server keeps offering its algorithms together with the cookie bit
                         attrs.push(RAttr::PasswordAlgorithms(self.lt_sess.as_ref().unwrap().algs.clone().unwrap()));
                     }
